@@ -140,6 +140,8 @@ def _parse_line(line, res, steps, inline, cur):
         res["choices"] = t[1:] if len(t) > 1 and t[1] else []
     elif tag == "M":
         res["M"] = parse_kv(t[1:])
+    elif tag == "K":
+        res["sites"] = [x for x in t[1:] if x]
     elif tag == "H":
         res["header"] = parse_kv(t[1:])
     elif tag == "T":
@@ -173,6 +175,7 @@ def run_case(exe, case, scratch, timeout=15):
     if rc != 0 or res["M"] is None:
         res["crash"] = "rc=%s %s" % (rc, err.decode("utf-8", "replace")[-1200:])
     res["case"] = case
+    res["exe"] = os.path.basename(exe)
     return res
 
 
@@ -212,7 +215,7 @@ def fan_event(ev):
         if e in ("lock", "unlock") and ev[2] == "tc":
             return [th, e]
         if e in ("signal", "broadcast") and ev[2] == "tc":
-            return [th, "signal"]       # the dispatcher is the only waiter on threadcount_cond: the two are the same
+            return [th, e]              # which call it was is passed on: the acceptor decides what it stands for
         return None
     if th in ("G", "Z", "-"):
         # watchdog / signals thread / clock: outside the Fan model unless they touch the protocol objects
@@ -222,6 +225,27 @@ def fan_event(ev):
     return None
 
 
+def discipline(res):
+    """The signalling discipline the code under test USES, read off what its workers did (wrapped calls on
+    threadcount_cond / threadcount_mutex between a worker's lock and its end): set of (call, place) with call in
+    {signal, broadcast} and place in {inside, after} the critical section."""
+    seen = set()
+    holding = {}
+    unlocked = set()
+    for _, ev in res["steps"]:
+        if len(ev) < 3 or not ev[0].startswith("W") or ev[2] != "tc":
+            continue
+        w, e = ev[0], ev[1]
+        if e == "lock":
+            holding[w] = True
+        elif e == "unlock":
+            holding[w] = False
+            unlocked.add(w)
+        elif e in ("signal", "broadcast"):
+            seen.add((e, "inside" if holding.get(w) else "after" if w in unlocked else "outside"))
+    return seen
+
+
 def fan_filter(names):
     if names in (None, "-", ""):
         return "-"
@@ -229,18 +253,55 @@ def fan_filter(names):
     return ",".join(keep) if keep else "-"
 
 
-def project_fan(res, variant):
-    """acceptor input lines for one run"""
+def relay_capable(case):
+    """runs whose relay events can be replayed through the COMPOSED LTS (Dsh/FanRelay.lean): protocol granularity
+    with the workers' reads / closes logged inline, command personality, no timeouts that make a worker give up on
+    its streams, no ^C^Z"""
+    return (case.get("yield", "fan") == "fan" and case.get("inline") == 1 and not case.get("timed") and
+            not case.get("signals_case") and not case.get("signals") and
+            (case.get("opts") or {}).get("pers", "dsh") != "pcp")
+
+
+def relay_lines(tokens):
+    """inline operations of a worker on its connection -> lines for the composed acceptor"""
+    out = []
+    for t in tokens:
+        if len(t) < 3 or not t[0].startswith("W"):
+            continue
+        if t[1] == "read" and len(t) >= 6 and int(t[2]) >= 1000 and int(t[4]) > 0:
+            fd = int(t[2])
+            out.append("rd W%d %d %s" % ((fd - 1000) // 2, (fd - 1000) % 2, t[5]))
+        elif t[1] == "close" and int(t[2]) >= 1000:
+            fd = int(t[2])
+            out.append("fin W%d %d" % ((fd - 1000) // 2, (fd - 1000) % 2))
+        elif t[1] == "connectEnd" and int(t[3]) < 0:
+            out.append("cfail %s" % t[0])
+    return out
+
+
+def project_fan(res, variant, relay=False):
+    """acceptor input lines for one run; relay=True: in relay mode (the protocol composed with the relay: the
+    workers' reads and closes are events too)"""
     m = res["M"] or {}
-    L = ["init %s %s %s" % (variant, res["header"].get("fanout", m.get("fanout", "0")),
-                            res["header"].get("n", m.get("n", "0")))]
-    for s, ev in res["steps"]:
+    f, n = res["header"].get("fanout", m.get("fanout", "0")), res["header"].get("n", m.get("n", "0"))
+    if relay:
+        L = ["initr %s %s %s %d" % (variant, f, n, 1 if (res["case"].get("opts") or {}).get("sopt") else 0)]
+    else:
+        L = ["init %s %s %s" % (variant, f, n)]
+    inl = {}
+    for idx, t in (res["inline"] if relay else []):
+        inl.setdefault(idx, []).append(t)
+    for k, (s, ev) in enumerate(res["steps"]):
+        L += relay_lines(inl.get(k, []))            # what happened inline after step k-1
         fe = fan_event(ev)
         if fe is None:
             continue
         if s is not None:
             L.append("st %s %s %s %s" % (s["tc"], fan_filter(s["R"]), fan_filter(s["P"]), fan_filter(s["X"])))
         L.append("ev " + " ".join(fe))
+        if relay and ev[0].startswith("W") and ev[1] == "connectEnd" and int(ev[3]) < 0:
+            L.append("cfail %s" % ev[0])
+    L += relay_lines(inl.get(len(res["steps"]), []))
     status = m.get("status", "crash")
     if status == "deadlock" and res.get("last_S"):
         s = res["last_S"]
@@ -302,17 +363,27 @@ def recount(res):
 def parked_with_room(res):
     """C04, second clause, on observable events only: the dispatcher sits in pthread_cond_wait and has NOT
     been signalled, during the dispatch phase (a target has not been started yet), while fewer than `fanout`
-    workers are created-and-not-yet-through-their-epilogue (a worker leaves that set when it releases
-    threadcount_mutex at the end of `lock; threadcount--; signal; unlock`).  Then a slot is free, the worker
-    that freed it is completely done, and nothing is on the way to wake the dispatcher: the next target waits
-    for something other than the dispatcher being scheduled.  A dispatcher that is parked but signalled, or
-    woken and not yet scheduled, is fine and is not reported.  Returns the step number or None."""
+    workers are created-and-not-yet-through-their-epilogue.  A worker is through its epilogue when it has released
+    threadcount_mutex AND has nothing more to do: its thread is gone (it is in none of the harness's runnable /
+    parked / blocked lists).  A worker that has unlocked but still owes its wake-up call (`lock; threadcount--;
+    unlock; signal` -- a legitimate discipline) is therefore still counted: somebody is on the way to wake the
+    dispatcher.  Then a slot is free, the worker that freed it is completely done, and nothing is on the way to wake
+    the dispatcher: the next target waits for something other than the dispatcher being scheduled.  A dispatcher
+    that is parked but signalled, or woken and not yet scheduled, is fine and is not reported.  Returns the step
+    number or None."""
     n = int(res["header"].get("n", 0))
     f = int(res["header"].get("fanout", 0))
-    created = finished = 0
+    created = 0
+    unlocked = set()
+
+    def names(s, key):
+        v = s.get(key) or "-"
+        return set() if v == "-" else set(v.split(","))
     for s, ev in res["steps"] + ([(res.get("last_S"), None)] if res.get("last_S") else []):
         if s is not None and created < n:
-            parked = "D" in (s.get("P") or "").split(",")
+            parked = "D" in names(s, "P")
+            alive = names(s, "R") | names(s, "P") | names(s, "B") | names(s, "X")
+            finished = sum(1 for w in unlocked if w not in alive)
             if parked and created - finished < f:
                 return s["k"]
         if ev is None or len(ev) < 3:
@@ -320,7 +391,7 @@ def parked_with_room(res):
         if ev[0] == "D" and ev[1] == "create" and ev[2].startswith("W"):
             created += 1
         elif ev[0].startswith("W") and ev[1] == "unlock" and ev[2] == "tc":
-            finished += 1
+            unlocked.add(ev[0])
     return None
 
 
@@ -395,10 +466,76 @@ def offenders(res):
         if c > 1:
             out.append(("C03", "started-twice", "target #%d had its command started %d times" % (i, c)))
             break
+    for _, ev in list(res["steps"]) + [(None, t) for _, t in res["inline"]]:
+        if len(ev) > 1 and ev[1] == "fwd" and "stale-efd" in ev:
+            out.append(("*", "signal-on-stale-descriptor", "a signal for target #%s was sent over a descriptor number that "
+                        "is not (any more) that target's open stderr connection" % ev[2]))
+            break
     rc = recount(res)
     if rc["peak"] != peak or rc["connects"] != connects:
         out.append(("*", "harness-bug", "monitor line and event lines disagree: %s vs %s" % (m, rc)))
     return out
+
+
+# ---------------------------------------------------------------------------- call sites
+WRAP_KIND = {"__wrap_pthread_cond_wait": "wait", "__wrap_pthread_cond_signal": "signal",
+             "__wrap_pthread_cond_broadcast": "broadcast", "__wrap_pthread_create": "create"}
+
+
+def static_sites(exe):
+    """The call sites of pthread_cond_wait / _signal / _broadcast and pthread_create that EXIST in the code compiled
+    from dsh.c (read off the harness executable: disassembly + debug info), as {"kind:hexoffset": "function file:line"}
+    with the same offsets the harness prints on its K line.  None if the tools are missing."""
+    import re
+    try:
+        nm = subprocess.run(["nm", exe], stdout=subprocess.PIPE, stderr=subprocess.DEVNULL, timeout=60).stdout.decode()
+        base = next(int(l.split()[0], 16) for l in nm.splitlines() if l.endswith(" __executable_start"))
+        dis = subprocess.run(["objdump", "-d", "--no-show-raw-insn", exe], stdout=subprocess.PIPE,
+                             stderr=subprocess.DEVNULL, timeout=120).stdout.decode("utf-8", "replace").splitlines()
+    except (OSError, StopIteration, subprocess.TimeoutExpired):
+        return None
+    found = []
+    for i, l in enumerate(dis):
+        m = re.match(r"^\s*([0-9a-f]+):\s+call\w*\s+[0-9a-f]+ <(__wrap_pthread_\w+)>", l)
+        if not m or m.group(2) not in WRAP_KIND:
+            continue
+        nxt = next((re.match(r"^\s*([0-9a-f]+):", x) for x in dis[i + 1:i + 4] if re.match(r"^\s*[0-9a-f]+:", x)), None)
+        if nxt:
+            found.append((WRAP_KIND[m.group(2)], int(m.group(1), 16), int(nxt.group(1), 16)))
+    if not found:
+        return {}
+    try:
+        a2l = subprocess.run(["addr2line", "-f", "-e", exe] + ["%x" % c for _, c, _ in found], stdout=subprocess.PIPE,
+                             stderr=subprocess.DEVNULL, timeout=60).stdout.decode().splitlines()
+    except (OSError, subprocess.TimeoutExpired):
+        return None
+    out = {}
+    for j, (kind, call, ret) in enumerate(found):
+        fn = a2l[2 * j] if 2 * j < len(a2l) else "?"
+        where = a2l[2 * j + 1] if 2 * j + 1 < len(a2l) else "?"
+        if "dsh.c" not in where:
+            continue                  # the harness's own calls, other translation units
+        out["%s:%x" % (kind, ret - base)] = "%s %s" % (fn, os.path.basename(where.split(" ")[0]))
+    return out
+
+
+def site_report(ctx, exe, seen, what):
+    """seen = set of "kind:offset" tokens collected from the K lines of the runs made with `exe`.  A call site that
+    exists in dsh.c and that NO run reached is a hole in the correspondence (a new / moved path nobody exercises):
+    reported as a broken tie.  -> table for the evidence"""
+    st = static_sites(exe)
+    if st is None:
+        return {"skipped": "nm / objdump / addr2line not available"}
+    missing = sorted(v for k, v in st.items() if k not in seen)
+    table = {v: ("reached" if k in seen else "NEVER REACHED") for k, v in sorted(st.items(), key=lambda kv: kv[1])}
+    if not st:
+        ctx.disagreement("call sites of dsh.c", "no call site of pthread_cond_wait/signal/broadcast/pthread_create found "
+                         "in the code compiled from dsh.c (%s)" % what)
+    elif missing:
+        ctx.disagreement("call sites of dsh.c", "%d of %d call sites of pthread_cond_wait/_signal/_broadcast/pthread_create "
+                         "in dsh.c were never reached by any run of %s: %s -- the trace correspondence says nothing "
+                         "about the code path they are on" % (len(missing), len(st), what, "; ".join(missing)))
+    return table
 
 
 # ---------------------------------------------------------------------------- variant detection
